@@ -114,4 +114,26 @@ def readLayout [DecidableEq α] (ι : Nat → α) (dims : List Nat) (ncol : Nat)
       | .error e => .error e
       | .ok scales => .ok { dims := dims, ncol := ncol, data := data, scales := scales }
 
+
+/-! ### the text writer's exactness check (fix 37955b4)
+
+Every number of a text-format dataset travels as a float64.  `write_dataset_to_text` refuses integer data
+(and integer axis scales) with a value `v` such that `abs v > 2**53` and `int(float(v)) != v`.
+`toF64 n` models `int(float(n))` for a natural number below 2^1024: round to 53 significant bits, ties to even. -/
+
+def toF64 (n : Nat) : Nat :=
+  let b := Nat.log2 n + 1                  -- bit length (for n > 0)
+  if b ≤ 53 then n else
+  let k := b - 53
+  let q := n / 2 ^ k
+  let r := n % 2 ^ k
+  let half := 2 ^ (k - 1)
+  (if r > half ∨ (r = half ∧ q % 2 = 1) then q + 1 else q) * 2 ^ k
+
+/-- the writer's test on one value (magnitude `n`; the test is symmetric in the sign) -/
+def refusedInt (n : Nat) : Bool := decide (n > 2 ^ 53) && toF64 n != n
+
+/-- `write_dataset_to_text` raises ValueError for this integer array (magnitudes) -/
+def refusesInts (vals : List Nat) : Bool := vals.any refusedInt
+
 end QmiModel.C17
